@@ -150,6 +150,6 @@ func (e *Enc) Wrap(body string) string {
 	for _, n := range e.order {
 		sb.WriteString("let " + n + " := " + e.defs[n] + " in ")
 	}
-	sb.WriteString(body + ")")
+	sb.WriteString("(" + body + " : authz_case))")
 	return sb.String()
 }
